@@ -25,9 +25,9 @@ const COMMANDS: [(Command, u8); 9] = [
 
 /// captures every write() separately
 #[derive(Default)]
-struct Capture {
-    writes: Vec<Vec<u8>>,
-    flushes: usize,
+pub(crate) struct Capture {
+    pub writes: Vec<Vec<u8>>,
+    pub flushes: usize,
 }
 impl std::io::Write for Capture {
     fn write(&mut self, buf: &[u8]) -> std::io::Result<usize> {
